@@ -419,6 +419,11 @@ def _rename_everywhere(repo: Repo, mi: ModuleInfo, fn: FunctionInfo, old: str) -
             om.imports[old] = (mi.name, old)
 
 
+def _plain(fn: FunctionInfo) -> bool:
+    """A helper wrapped by a decorator (memoisation, context manager, ...) is not equivalent to its inlined body."""
+    return all((dotted(d) or "") in ("staticmethod", "classmethod") for d in fn.node.decorator_list)
+
+
 # --------------------------------------------------------------------------- driver
 def normalize_repo(repo: Repo) -> dict[str, object]:
     census = _load_census().get("modules", {})
@@ -458,19 +463,19 @@ def normalize_repo(repo: Repo) -> dict[str, object]:
                 if v is not None:
                     consts[name] = v
         # ---- new helpers
-        helpers_mod = {f.name: f for f in mi.functions.values() if f.qualname not in known_funcs}
+        helpers_mod = {f.name: f for f in mi.functions.values() if f.qualname not in known_funcs and _plain(f)}
         all_fns: list[FunctionInfo] = list(mi.functions.values()) + [m for c in mi.classes.values() for m in c.methods.values()]
         for fn in all_fns:
             spellings: dict[str, FunctionInfo] = dict(helpers_mod)
             if fn.cls is not None:
                 for m in fn.cls.methods.values():
-                    if m.qualname not in known_funcs and m is not fn and m.name != "__init__":
+                    if m.qualname not in known_funcs and m is not fn and m.name != "__init__" and _plain(m):
                         spellings[f"self.{m.name}"] = m
                         spellings[f"cls.{m.name}"] = m
                         spellings[f"{fn.cls.name}.{m.name}"] = m
             for cname, ci in mi.classes.items():
                 for m in ci.methods.values():
-                    if m.qualname not in known_funcs and m.is_static():
+                    if m.qualname not in known_funcs and m.is_static() and _plain(m):
                         spellings[f"{cname}.{m.name}"] = m
             spellings = {k: v for k, v in spellings.items() if v is not fn}
             if consts:
